@@ -112,7 +112,7 @@ def run_cons_small(sh, ctx):
 		check_consensus(ctx, gc, model, otaxa, (None, 0, 1, 0), [order])
 
 
-THRS = [None, 0.125, 0.25, 0.5, 0.75]
+THRS = [None, 0.0, 0.125, 0.25, 0.5, 0.75, 1.0]
 GRID = [0.0, 0.0625, 0.125, 0.2, 0.25, 0.4, 0.5, 0.7, 0.75, 0.9, 1.0]
 
 
